@@ -413,15 +413,19 @@ def main_mc(ctx, pid, bugs, persist):
 def coverage(rows):
     cov = {"mounts_ok": 0, "mounts_refused": 0, "overmounts": 0, "root_mounts": 0, "nested_mounts": 0, "umounts": 0, "wraparounds": 0,
            "table_full": 0, "requests": 0, "vacant_slot_requests": 0, "pseudo_requests": 0, "cross_mount_two_inode": 0,
-           "mountpoint_lookups": 0, "with_own_mapping": 0, "with_global_mapping": 0, "saverestore": 0, "saverestore_v1": 0, "saved_after_wrap_with_mapping_above_next_super": 0, "ops": {}}
+           "mountpoint_lookups": 0, "with_own_mapping": 0, "with_global_mapping": 0, "saverestore": 0, "saverestore_v1": 0, "saved_after_wrap_with_mapping_above_next_super": 0, "remounts_in_place": 0,
+           "requests_after_remount": 0, "umounts_refused": 0, "umounts_refused_with_remove_pseudo_root": 0, "umounts_with_remove_pseudo_root": 0, "ops": {}}
     mounted = {}
     lastidx = 0
     nocc = 0
     gm = False
     wrapped, nexts, mapped = False, 1, {}
+    rm, remounted = False, set()
     for r in rows:
         e = r.get("e")
         if e == "Reset":
+            rm = bool(r["opts"].get("remove_pseudo_root"))
+            remounted = set()
             mounted = {}
             lastidx = 0
             wrapped, nexts, mapped = False, 1, {}
@@ -457,8 +461,18 @@ def coverage(rows):
                 cov["mounts_refused"] += 1
                 if r.get("abs") and r.get("backend_ok") and "maximum mountpoints" in r.get("err", ""):
                     cov["table_full"] += 1
+        elif e == "Remount":
+            if r["ret"] == "ok":
+                cov["remounts_in_place"] += 1
+                remounted.add(r["idx"])
+        elif e == "Umount" and r["ret"] != "ok":
+            cov["umounts_refused"] += 1
+            if rm:
+                cov["umounts_refused_with_remove_pseudo_root"] += 1
         elif e == "Umount" and r["ret"] == "ok":
             cov["umounts"] += 1
+            if rm:
+                cov["umounts_with_remove_pseudo_root"] += 1
             mounted.pop("/" + "/".join(c for c in r["comps"] if c not in ("", ".")), None)
             mapped.pop("/" + "/".join(c for c in r["comps"] if c not in ("", ".")), None)
         elif e == "SaveRestore" and r.get("ret") == "ok":
@@ -471,6 +485,8 @@ def coverage(rows):
             cov["requests"] += 1
             cov["ops"][r["op"]] = cov["ops"].get(r["op"], 0) + 1
             i = r["ino"]["idx"]
+            if i in remounted:
+                cov["requests_after_remount"] += 1
             if i == 0:
                 cov["pseudo_requests"] += 1
             elif i not in mounted.values():
@@ -556,10 +572,13 @@ def common_run(ctx, pid, persist):
 
 def plain_sources(ctx, bd, abi, present, tag, idpred=True):
     quick = ctx.quick
-    walks = tlc_walks(ctx, "walk_" + tag, 150 if quick else 600, 6 if quick else 8, present, False)
+    walks = tlc_walks(ctx, "walk_" + tag, 120 if quick else 600, 6 if quick else 8, present, False)
     scs = [concretise(w, "tlc-%s-%d" % (tag, i), "tlc-simulate", ctx.seed * 1000 + i, autoprobe=2, idpred=idpred) for i, w in enumerate(walks)]
     rnd = gen_random(ctx, bd, abi, 2 if quick else 10, 300 if quick else 600, "mix", tag)
     rnd += gen_random(ctx, bd, abi, 1 if quick else 3, 330 if quick else 600, "fill", tag + "f")
+    # set_remove_pseudo_root(): leaf mount points, refused umounts of intermediate directories / "/" / unknown paths,
+    # walks to every mount path after every step, every mount unmounted by path at the end
+    rnd += gen_random(ctx, bd, abi, 2 if quick else 12, 25 if quick else 80, "rmroot", tag + "r")
     return scs, rnd
 
 
@@ -575,7 +594,8 @@ def run_c07(ctx):
         note_drift(ctx, drifts, rows, "c07")
         cov = coverage(rows)
         gate(ctx, cov, ["mounts_ok", "mounts_refused", "overmounts", "root_mounts", "nested_mounts", "umounts", "wraparounds", "table_full",
-                        "vacant_slot_requests", "pseudo_requests", "cross_mount_two_inode", "mountpoint_lookups"])
+                        "vacant_slot_requests", "pseudo_requests", "cross_mount_two_inode", "mountpoint_lookups", "remounts_in_place",
+                        "requests_after_remount", "umounts_refused_with_remove_pseudo_root", "umounts_with_remove_pseudo_root"])
 
         def mut(bad):
             n = 0
@@ -603,7 +623,8 @@ def run_c07(ctx):
             ctx.sample({"scenario": s["id"], "steps": s["steps"][:6]})
         ctx.assumptions += ["backends are ScriptedFs instances (own inode numbering, consistent dirent/entry numbers); pseudo inode numbers are allocated sequentially from 2 (the number scheme C19 relies on)",
                             "requests of operations the Vfs does not implement (ioctl, lseek, locks, bmap, poll, copy_file_range) are not driven",
-                            "set_remove_pseudo_root() is not exercised"]
+                            "with set_remove_pseudo_root() the mount points of the histories are leaves of the pseudo tree (a successful umount of a directory that has mounts below it evicts the directory: those mounts are no longer reachable by path; not judged here)",
+                            "restore_mount on a live instance is driven only in place (same index, same path as a current mount)"]
     finally:
         pass
 
@@ -718,7 +739,8 @@ def run_c19(ctx):
         report(ctx, "C19", rows, viols, allsc, "replay")
         note_drift(ctx, drifts, rows, "c19")
         cov = coverage(rows)
-        gate(ctx, cov, ["saverestore", "saverestore_v1", "mounts_ok", "umounts", "with_own_mapping", "saved_after_wrap_with_mapping_above_next_super"])
+        gate(ctx, cov, ["saverestore", "saverestore_v1", "mounts_ok", "umounts", "with_own_mapping", "saved_after_wrap_with_mapping_above_next_super",
+                        "remounts_in_place"])
         skipped = sum(1 for x in rows if x.get("e") == "SaveRestore" and x.get("ret") == "skipped")
 
         def mut(bad):
